@@ -67,6 +67,23 @@ impl VGroupStorage {
         Ok(Self { backend: GroupBackend::Mem(s), ctl })
     }
 
+    /// the storage a client gets when nothing is configured: `Default::default()`, no retention call
+    pub fn mem_default(ctl: Ctl) -> Result<Self, String> {
+        Ok(Self { backend: GroupBackend::Mem(InMemoryGroupStateStorage::default()), ctl })
+    }
+
+    /// `new()` without a retention call
+    pub fn mem_new(ctl: Ctl) -> Result<Self, String> {
+        Ok(Self { backend: GroupBackend::Mem(InMemoryGroupStateStorage::new()), ctl })
+    }
+
+    /// SQLite storage without a retention call
+    pub fn sqlite_default(path: &std::path::Path, ctl: Ctl) -> Result<Self, String> {
+        let eng = SqLiteDataStorageEngine::new(FileConnectionStrategy::new(path)).map_err(|e| format!("{e:?}"))?;
+        let s = eng.group_state_storage().map_err(|e| format!("{e:?}"))?;
+        Ok(Self { backend: GroupBackend::Sqlite(s), ctl })
+    }
+
     pub fn sqlite(path: &std::path::Path, retention: u64, ctl: Ctl) -> Result<Self, String> {
         let eng = SqLiteDataStorageEngine::new(FileConnectionStrategy::new(path)).map_err(|e| format!("{e:?}"))?;
         let s = eng.group_state_storage().map_err(|e| format!("{e:?}"))?.with_max_epoch_retention(retention);
